@@ -139,8 +139,8 @@ class Index:
                 for name, m in methods.items():
                     if name in anchors or name.startswith("__") or uses.get(name, 0) != 1:
                         continue
-                    if m.decorator_list and not all(isinstance(d, ast.Name) and d.id == "staticmethod" for d in m.decorator_list):
-                        continue
+                    if m.decorator_list or not m.args.args or m.args.args[0].arg != "self":
+                        continue       # instance methods reached through self only (class-qualified static helpers are left to the tracer)
                     cands[name] = m
                 # innermost first: a helper that itself still calls another helper to be merged waits for the next pass
                 def calls_cand(m_, names):
@@ -155,7 +155,7 @@ class Index:
                     if name in cands and False:
                         continue
                     called = {c.func.attr for c in ast.walk(m) if isinstance(c, ast.Call) and isinstance(c.func, ast.Attribute)
-                              and isinstance(c.func.value, ast.Name) and c.func.value.id in ("self", cls.name) and c.func.attr in cands and c.func.attr != name}
+                              and isinstance(c.func.value, ast.Name) and c.func.value.id == "self" and c.func.attr in cands and c.func.attr != name}
                     if not called:
                         continue
                     keep = [k for k in methods if k not in called]
